@@ -8,10 +8,14 @@
 //              2^63-1, 2^63, SIZE_MAX-1); iterators: begin()-1, end()+1, reversed pairs, end() where
 //              a dereferenceable iterator is required; ranges one longer than the free space
 //   controls   the nearest valid argument of every call template
+// Round 2: remaining (overload, position) pairs of static_vector insert/emplace/push_back, stack top() const /
+// push(rvalue) / emplace, and the members of flat_set<int, static_vector<int,N>> and static_set<int,N> that hand an
+// iterator or a growth request to the underlying static_vector (job "set-members").
 // API notes: static_vector::insert/move_insert/assign/ctor(first,last) only compile for pointers
 // (static_assert(is_pointer_v)), so single-pass ranges cannot be passed at all.
 #include "c05_common.hpp"
 
+#include <etl/flat_set.hpp>
 #include <etl/inplace_vector.hpp>
 #include <etl/set.hpp>
 #include <etl/stack.hpp>
@@ -223,6 +227,11 @@ void static_vector_cases(Catalogue& c, bool thorough)
                 grow1("static_vector::insert(pos,value) at end()", [](V& v, T& x) { sink(v.insert(v.end(), x)); });
                 grow1("static_vector::insert(pos,rvalue) at begin()", [](V& v, T& x) { sink(v.insert(v.begin(), T(x))); });
                 grow1("static_vector::emplace(pos,args) at end()", [](V& v, T& x) { sink(v.emplace(v.end(), x)); });
+                // round 2: the remaining (overload, position) pairs
+                grow1("static_vector::insert(pos,rvalue) at end()", [](V& v, T& x) { sink(v.insert(v.end(), T(x))); });
+                grow1("static_vector::emplace(pos,args) at begin()", [](V& v, T& x) { sink(v.emplace(v.begin(), x)); });
+                grow1("static_vector::insert(pos,n,value) n=1 at end()", [](V& v, T& x) { sink(v.insert(v.end(), std::size_t(1), x)); });
+                grow1("static_vector::push_back(rvalue)", [](V& v, T& x) { v.push_back(T(x)); });
             }
 
             if constexpr (N > 0) {
@@ -427,6 +436,10 @@ void static_vector_cases(Catalogue& c, bool thorough)
                 srow("stack<static_vector>::top()", s == 0, s == 0 ? "empty" : "non_empty", [](S& q, T&) { touch(q.top()); });
                 srow("stack<static_vector>::pop()", s == 0, s == 0 ? "empty" : "non_empty", [](S& q, T&) { q.pop(); });
                 srow("stack<static_vector>::push(value)", s == N, s == N ? "full" : "not_full", [](S& q, T& x) { q.push(x); });
+                // round 2: the other overloads
+                srow("stack<static_vector>::top() const", s == 0, s == 0 ? "empty" : "non_empty", [](S& q, T&) { touch(static_cast<S const&>(q).top()); });
+                srow("stack<static_vector>::push(rvalue)", s == N, s == N ? "full" : "not_full", [](S& q, T& x) { q.push(T(x)); });
+                srow("stack<static_vector>::emplace(args)", s == N, s == N ? "full" : "not_full", [](S& q, T& x) { q.emplace(x); });
             }
         }
     }
@@ -544,6 +557,162 @@ void static_set_cases(Catalogue& c)
     });
 }
 
+// ---------------------------------------------------------------------------------------------
+// round 2: flat_set over static_vector and static_set - the members that forward an iterator or a growth request
+// to the underlying static_vector.  Keys are 10, 20, ... 10*s; "new" keys lie between / behind them.
+// ---------------------------------------------------------------------------------------------
+
+template <typename Set, std::size_t N>
+void set_member_cases(Catalogue& c, char const* kind, bool isFlat)
+{
+    using It            = typename Set::iterator;
+    c.config            = isFlat ? cat("flat_set<int,static_vector<int,", N, ">>") : cat("static_set<int,", N, ">");
+    char const* const F = "_vector/static_vector.hpp|_set/static_set.hpp|_flat_set/flat_set.hpp";
+    std::string const K = kind;
+    for (std::size_t s = 0; s <= N; ++s) {
+        std::string const st = cat("size=", s);
+        auto mk              = [s](Ctx& cx) {
+            Set* v = cx.make<Set>();
+            for (std::size_t i = 0; i < s; ++i) { v->insert(int(10 * (i + 1))); }
+            return v;
+        };
+        auto row = [&](bool bad, std::string subject, std::string cls, std::string text, auto fn) {
+            auto body = [=](Ctx& cx) {
+                Set* v = mk(cx);
+                cx.call([&] { fn(*v); });
+            };
+            if (bad) {
+                c.bad(K + "::" + subject, cls, cat(st, ": ", text), F, body);
+            } else {
+                c.ok(K + "::" + subject, cls, cat(st, ": ", text), body);
+            }
+        };
+        // --- growth: a new key into a full set is a precondition violation of flat_set<static_vector> (the
+        // container cannot grow); static_set documents a wide contract (returns {nullptr,false}): control
+        bool const full = s == N;
+        for (int which = 0; which < 3; ++which) { // new key in front / behind, existing key
+            if (which == 2 && s == 0) { continue; }
+            int const key         = which == 0 ? 5 : which == 1 ? int(10 * s + 5) : int(10 * s);
+            bool const isNew      = which != 2;
+            bool const bad        = isFlat && full && isNew;
+            std::string const cls = cat(full ? "full" : "not_full", isNew ? (which == 0 ? "+new_key_front" : "+new_key_back") : "+duplicate");
+            row(bad, "insert(value)", cls, cat("insert(", key, ")"), [=](Set& v) { int const k = key; sink(v.insert(k)); });
+            row(bad, "insert(rvalue)", cls, cat("insert(int(", key, "))"), [=](Set& v) { sink(v.insert(int(key))); });
+            row(bad, "emplace(args)", cls, cat("emplace(", key, ")"), [=](Set& v) { sink(v.emplace(key)); });
+            if constexpr (requires(Set& v, int const& k) { v.emplace_hint(v.cbegin(), k); }) {
+                row(bad, "emplace_hint(pos,args)", cls, cat("emplace_hint(begin(), ", key, ")"), [=](Set& v) { sink(v.emplace_hint(v.cbegin(), key)); });
+                row(bad, "insert(pos,value)", cls, cat("insert(end(), ", key, ")"), [=](Set& v) { int const k = key; sink(v.insert(v.cend(), k)); });
+                row(bad, "insert(pos,rvalue)", cls, cat("insert(begin(), int(", key, "))"), [=](Set& v) { sink(v.insert(v.cbegin(), int(key))); });
+            }
+            {
+                auto body = [=](Ctx& cx) {
+                    Set* v   = mk(cx);
+                    int* src = cx.buffer<int>(2, key, 0); // the same key twice
+                    cx.call([&] { v->insert(src, src + 2); });
+                };
+                if (bad) {
+                    c.bad(K + "::insert(first,last)", cls, cat(st, ": insert(p, p+2) with {", key, ", ", key, "}"), F, body);
+                } else {
+                    c.ok(K + "::insert(first,last)", cls, cat(st, ": insert(p, p+2) with {", key, ", ", key, "}"), body);
+                }
+            }
+        }
+        // --- erase(pos): pos must be dereferenceable
+        if constexpr (N > 0) {
+            struct E1 {
+                Pos p;
+                char const* cls;
+            };
+            auto erase1 = [&](std::string subject, auto conv) {
+                for (E1 e : {E1{before_begin, "pos_before_begin"}, E1{at_end, "pos_eq_end"}, E1{past_end, "pos_past_end"}}) {
+                    c.bad(K + "::" + subject, e.cls, cat(st, ": erase(", pos_text(e.p), ")"), F, [=](Ctx& cx) {
+                        Set* v  = mk(cx);
+                        auto it = conv(pos_of(*v, e.p));
+                        cx.call([&] { sink(v->erase(it)); });
+                    });
+                }
+                if (s > 0) {
+                    c.ok(K + "::" + subject, "pos_begin", cat(st, ": erase(begin())"), [=](Ctx& cx) {
+                        Set* v  = mk(cx);
+                        auto it = conv(v->begin());
+                        cx.call([&] { sink(v->erase(it)); });
+                    });
+                    c.ok(K + "::" + subject, "pos_last", cat(st, ": erase(end()-1)"), [=](Ctx& cx) {
+                        Set* v  = mk(cx);
+                        auto it = conv(v->end() - 1);
+                        cx.call([&] { sink(v->erase(it)); });
+                    });
+                }
+            };
+            erase1("erase(pos)", [](It it) { return it; });
+            if constexpr (requires(Set& v, typename Set::const_iterator ci) { v.erase(ci); }) {
+                erase1("erase(const_pos)", [](It it) { return typename Set::const_iterator(it); });
+            }
+            struct E2 {
+                Pos a, b;
+                char const* cls;
+                bool bad;
+                bool needs_elements;
+            };
+            for (E2 e : {E2{before_begin, at_begin, "first_before_begin", true, false}, E2{before_begin, at_end, "first_before_begin", true, false},
+                     E2{at_end, past_end, "last_past_end", true, false}, E2{at_begin, past_end, "last_past_end", true, false},
+                     E2{past_end, past_end, "first_past_end", true, false}, E2{at_end, at_begin, "range_reversed", true, true},
+                     E2{at_begin, at_end, "whole", false, false}, E2{at_end, at_end, "empty_at_end", false, false},
+                     E2{at_begin, at_begin, "empty_at_begin", false, false}}) {
+                if (e.needs_elements && s == 0) { continue; }
+                auto body = [=](Ctx& cx) {
+                    Set* v = mk(cx);
+                    auto f = pos_of(*v, e.a);
+                    auto l = pos_of(*v, e.b);
+                    cx.call([&] { sink(v->erase(f, l)); });
+                };
+                std::string const text = cat(st, ": erase(", pos_text(e.a), ", ", pos_text(e.b), ")");
+                if (e.bad) {
+                    c.bad(K + "::erase(first,last)", e.cls, text, F, body);
+                } else {
+                    c.ok(K + "::erase(first,last)", e.cls, text, body);
+                }
+            }
+            // erase(key): wide contract
+            row(false, "erase(key)", "absent_key", "erase(5)", [](Set& v) { sink(v.erase(5)); });
+            if (s > 0) { row(false, "erase(key)", "present_key", "erase(10)", [](Set& v) { sink(v.erase(10)); }); }
+        }
+    }
+    if (isFlat) {
+        // flat_set(first,last): more DISTINCT keys than the container can hold; N+2 elements with N distinct keys are fine
+        for (std::size_t extra : {std::size_t(1), std::size_t(2)}) {
+            c.bad(K + "::flat_set(first,last)", "distinct_keys_gt_capacity", cat("flat_set(p, p+", N + extra, ") distinct keys"), F,
+                [=](Ctx& cx) {
+                    Set* p   = cx.raw<Set>();
+                    int* src = cx.buffer<int>(N + extra, 1, 1);
+                    cx.call([&] { ::new (static_cast<void*>(p)) Set(src, src + N + extra); });
+                },
+                false);
+        }
+        c.ok(K + "::flat_set(first,last)", "distinct_keys_eq_capacity", cat("flat_set(p, p+", N, ") distinct keys"), [=](Ctx& cx) {
+            Set* p   = cx.raw<Set>();
+            int* src = cx.buffer<int>(N + 1, 1, 1);
+            cx.call([&] { ::new (static_cast<void*>(p)) Set(src, src + N); });
+        });
+        if constexpr (N > 0) {
+            c.ok(K + "::flat_set(first,last)", "distinct_keys_eq_capacity+duplicates", cat("flat_set(p, p+", N + 2, ") with ", N, " distinct keys"), [=](Ctx& cx) {
+                Set* p   = cx.raw<Set>();
+                int* src = cx.buffer<int>(N + 2, 1, 1);
+                src[N]     = src[0];
+                src[N + 1] = src[N - 1];
+                cx.call([&] { ::new (static_cast<void*>(p)) Set(src, src + N + 2); });
+            });
+        }
+    }
+}
+
+template <std::size_t N>
+void set_member_job_cases(Catalogue& c)
+{
+    set_member_cases<etl::flat_set<int, etl::static_vector<int, N>>, N>(c, "flat_set<static_vector>", true);
+    set_member_cases<etl::static_set<int, N>, N>(c, "static_set", false);
+}
+
 template <typename T, std::size_t N>
 void job_sv(mc::Main& m, std::vector<std::string> tiers)
 {
@@ -589,6 +758,16 @@ int main(int argc, char** argv)
         if (r.thorough()) {
             static_set_cases<2>(c);
             static_set_cases<4>(c);
+        }
+        run(r, c);
+    });
+    m.job("set-members", both, [](mc::Reporter& r) {
+        Catalogue c;
+        set_member_job_cases<1>(c);
+        set_member_job_cases<3>(c);
+        if (r.thorough()) {
+            set_member_job_cases<2>(c);
+            set_member_job_cases<4>(c);
         }
         run(r, c);
     });
